@@ -88,7 +88,8 @@ def _run_witness(crate, pkg, fname, flt, timeout=1500):
         else:
             s.write(f"{crate}/tests/verif_{fname}", src)
             cmd = ["cargo", "test", "--offline", "-p", pkg, "--test", "verif_" + fname[:-3], "--"] + flt.split("|") + ["--test-threads", "4"]
-        p = subprocess.run(cmd, cwd=s.repo, env=scratch.cargo_env("target-replay"), capture_output=True, text=True, timeout=timeout)
+        with scratch.cargo_lock("target-replay"):
+            p = subprocess.run(cmd, cwd=s.repo, env=scratch.cargo_env("target-replay"), capture_output=True, text=True, timeout=timeout)
     out = p.stdout[-9000:] + "\n--- stderr (tail) ---\n" + p.stderr[-1500:]
     return p.returncode, out, " ".join(cmd)
 
